@@ -1,3 +1,3 @@
 H("batch_tsan", "C01", "tsan", ["harness/batch_tsan.cc"], sdk=["common", "version", "resource", "trace", "logs", "metrics"], aux=True, real_clock=True,
   args={"quick": ["25"], "thorough": ["400"]},
-  note="free-running ThreadSanitizer pass over batch span/log processors, simple processor and meter record/collect (sampling; assumption check for the sequentially consistent scheduler used by C01/C02/C03/C06)")
+  note="free-running ThreadSanitizer pass over batch span/log processors, simple span/log processors, meter record/collect and a periodic reader behind its provider (timer cycles racing ForceFlush, recorders and Shutdown) (sampling; assumption check for the sequentially consistent scheduler used by C01/C02/C03/C06)")
